@@ -167,6 +167,8 @@ where
             }
             match peek_token {
                 Some(peek_token) => match peek_token {
+                    // The tokenizer yields `EOF` forever once the input is exhausted
+                    Token::EOF => return Ok(false),
                     Token::AttributeOpen => in_attribute = true,
                     Token::DocComment(..) => (),
                     Token::RBracket => in_attribute = false,
